@@ -1,7 +1,7 @@
 (* C27/Proofs.v — introspection data is well-formed and matches wire behaviour: theorems over ALL interface
    descriptions and node trees. *)
 From ZV Require Import Base.Bytes Base.WinnowFacts C26.Desc C26.Tree C26.Msg C27.Model C28.Model C26.Model.
-From ZV Require Import C28.Spec C26.Spec C27.Spec C26.Facts C26.Proofs C28.Proofs.
+From ZV Require Import C28.Spec C26.Spec C27.Spec C26.Facts C26.Proofs C28.Proofs C27.Dedash.
 From Coq Require Import Lia.
 
 (* ---------------------------------------------------------------- reading the item tree *)
@@ -186,32 +186,35 @@ Lemma forallb_flat_map {A} (f : A -> list xi) l :
   forallb xi_wf (flat_map f l) = forallb (fun a => forallb xi_wf (f a)) l.
 Proof. induction l as [|a l IH]; cbn; [reflexivity|]. now rewrite forallb_app, IH. Qed.
 
-Lemma docs_wf doc : forallb xi_wf (to_xml_docs doc) = negb (existsb has_dd (xml_doc_lines doc)).
-Proof. unfold to_xml_docs. destruct (xml_doc_lines doc) eqn:E; [reflexivity|]. cbn. now rewrite andb_true_r. Qed.
+(* every comment line went through the "--" rewriting (fix e95e1976), which leaves no "--" *)
+Lemma docs_wf doc : forallb xi_wf (to_xml_docs doc) = true.
+Proof.
+  unfold to_xml_docs. destruct (xml_doc_lines doc) as [|l ls]; [reflexivity|]. cbn [forallb xi_wf]. rewrite andb_true_r.
+  apply negb_true_iff. destruct (existsb has_dd (map dedash (l :: ls))) eqn:E; [|reflexivity].
+  apply existsb_exists in E as (x & Hx & Hd). apply in_map_iff in Hx as (y & <- & _). now rewrite dedash_clean in Hd.
+Qed.
 
 Lemma args_wf (l : list xi) : (forall x, In x l -> exists t a, x = XE t a [] true) -> forallb xi_wf l = true.
 Proof.
   intro H. apply forallb_forall. intros x Hx. destruct (H x Hx) as (t & a & ->). reflexivity.
 Qed.
 
-Lemma method_items_wf m : forallb xi_wf (method_items m) = negb (existsb has_dd (xml_doc_lines (md_doc m))).
+Lemma method_items_wf m : forallb xi_wf (method_items m) = true.
 Proof.
-  unfold method_items. rewrite forallb_app, docs_wf. cbn [forallb]. rewrite xi_wf_elem.
-  rewrite (args_wf (map arg_in (md_ins m) ++ out_args (md_out m))); [now rewrite !andb_true_r|].
+  unfold method_items. rewrite forallb_app, docs_wf. cbn [forallb andb]. rewrite xi_wf_elem.
+  rewrite (args_wf (map arg_in (md_ins m) ++ out_args (md_out m))); [reflexivity|].
   intros x Hx. apply in_app_or in Hx as [Hx|Hx]; apply in_map_iff in Hx as (y & <- & _); do 2 eexists; reflexivity.
 Qed.
 
-Lemma signal_items_wf s : forallb xi_wf (signal_items s) = negb (existsb has_dd (xml_doc_lines (sd_doc s))).
+Lemma signal_items_wf s : forallb xi_wf (signal_items s) = true.
 Proof.
-  unfold signal_items. rewrite forallb_app, docs_wf. cbn [forallb]. rewrite xi_wf_elem.
-  rewrite (args_wf (map arg_sig (sd_args s))); [now rewrite !andb_true_r|].
+  unfold signal_items. rewrite forallb_app, docs_wf. cbn [forallb andb]. rewrite xi_wf_elem.
+  rewrite (args_wf (map arg_sig (sd_args s))); [reflexivity|].
   intros x Hx. apply in_map_iff in Hx as (y & <- & _). do 2 eexists; reflexivity.
 Qed.
 
-Lemma prop_items_wf p : forallb xi_wf (prop_items p) = negb (existsb has_dd (xml_doc_lines (pd_doc p))).
-Proof.
-  unfold prop_items. rewrite forallb_app, docs_wf. destruct (eff_emits p); cbn; now rewrite !andb_true_r.
-Qed.
+Lemma prop_items_wf p : forallb xi_wf (prop_items p) = true.
+Proof. unfold prop_items. rewrite forallb_app, docs_wf. destruct (eff_emits p); reflexivity. Qed.
 
 (* sorting only permutes *)
 Lemma insert_sorted_in {A} (e : bytes * A) l x : In x (insert_sorted e l) <-> x = e \/ In x l.
@@ -230,36 +233,22 @@ Proof.
   - intro H. exists (pd_name p, p). split; [reflexivity|]. apply sort_by_key_in. apply in_map_iff. eauto.
 Qed.
 
-Lemma forallb_neg_existsb {A} (f : A -> bool) l : forallb (fun a => negb (f a)) l = negb (existsb f l).
-Proof. induction l as [|a l IH]; cbn; [reflexivity|]. rewrite IH. now destruct (f a). Qed.
+Lemma forallb_const_true {A} (f : A -> bool) l : (forall a, f a = true) -> forallb f l = true.
+Proof. intro H. apply forallb_forall. auto. Qed.
 
-Lemma forallb_ext' {A} (f g : A -> bool) l : (forall a, f a = g a) -> forallb f l = forallb g l.
-Proof. intro H. induction l as [|a l IH]; cbn; [reflexivity|]. now rewrite H, IH. Qed.
-
-Lemma iface_item_wf d : doc_dd d = false -> xi_wf (iface_item d) = true.
+Lemma iface_item_wf d : xi_wf (iface_item d) = true.
 Proof.
-  unfold doc_dd, iface_item. intro H. apply orb_false_iff in H as [H H3]. apply orb_false_iff in H as [H1 H2].
-  rewrite xi_wf_elem, !forallb_app, !forallb_flat_map.
-  rewrite (forallb_ext' _ _ _ method_items_wf), (forallb_ext' _ _ _ signal_items_wf), (forallb_ext' _ _ _ prop_items_wf).
-  rewrite !forallb_neg_existsb, H1, H2. cbn [negb andb].
-  apply negb_true_iff. destruct (existsb _ (sorted_props d)) eqn:E; [|reflexivity].
-  apply existsb_exists in E as (p & Hp & Hd). apply sorted_props_in in Hp.
-  assert (existsb (fun p => existsb has_dd (xml_doc_lines (pd_doc p))) (id_props d) = true); [|congruence].
-  apply existsb_exists. eauto.
+  unfold iface_item. rewrite xi_wf_elem, !forallb_app, !forallb_flat_map.
+  rewrite (forallb_const_true _ _ method_items_wf), (forallb_const_true _ _ signal_items_wf),
+          (forallb_const_true _ _ prop_items_wf). reflexivity.
 Qed.
 
-Lemma std_ifaces_wf : forallb (fun d => negb (doc_dd d)) std_ifaces = true.
-Proof. reflexivity. Qed.
-
-Theorem wellformed_partial : forall n name, node_dd n = false -> xi_wf (node_item name n) = true.
+(* full strength since fix e95e1976: whatever the doc texts, every comment written is a well-formed XML comment *)
+Theorem wellformed : forall n name, xi_wf (node_item name n) = true.
 Proof.
-  fix IH 1. intros [ifs kids] name H. rewrite node_item_unfold, xi_wf_elem, forallb_app.
-  cbn [node_dd] in H. apply orb_false_iff in H as [H1 H2]. apply andb_true_iff. split.
-  - rewrite map_app, forallb_app. apply andb_true_iff. split; [reflexivity|].
-    apply forallb_forall. intros x Hx. apply in_map_iff in Hx as (d & <- & Hd).
-    apply in_map_iff in Hd as (i & <- & Hi). apply iface_item_wf.
-    destruct (doc_dd (in_desc i)) eqn:E; [|reflexivity].
-    assert (existsb (fun i => doc_dd (in_desc i)) ifs = true); [|congruence]. apply existsb_exists. eauto.
-  - clear H1. induction kids as [|[k c] r IHk]; [reflexivity|]. cbn [kid_items forallb].
-    fold (kid_items r). apply orb_false_iff in H2 as [Hc Hr]. rewrite (IH c (Some k) Hc). cbn. apply IHk. exact Hr.
+  fix IH 1. intros [ifs kids] name. rewrite node_item_unfold, xi_wf_elem, forallb_app.
+  apply andb_true_iff. split.
+  - apply forallb_forall. intros x Hx. apply in_map_iff in Hx as (d & <- & _). apply iface_item_wf.
+  - induction kids as [|[k c] r IHk]; [reflexivity|]. cbn [kid_items forallb].
+    fold (kid_items r). rewrite (IH c (Some k)). exact IHk.
 Qed.
